@@ -609,9 +609,9 @@ class Gen(object):
 # rendering
 
 WS_SIMPLE = [' ']
-WS_VARIED = [' ', '  ', '\t', ' \t ', '\x0b', '\x0c', u'\xa0', u'\ufeff', u' ', u'\u3000']
+WS_VARIED = [' ', '  ', '\t', ' \t ', '\x0b', '\x0c', u'\xa0', u'\ufeff', u'\u2003', u'\u3000']
 LT_BASIC = ['\n']
-LT_ALL = ['\n', '\r', '\r\n', u' ', u' ', '\n\n', ' \n  ']
+LT_ALL = ['\n', '\r', '\r\n', u'\u2028', u'\u2029', '\n\n', ' \n  ', u'\u2028\n']
 LT_NO_LSPS = ['\n', '\r', '\r\n', '\n\n', ' \n  ', '\r\n\t']
 COMMENTS_INLINE = ['/*c*/', '/**/', '/* a * b / */', u'/*\u00e9*/', '/*//*/']
 COMMENTS_ML = ['/*c\nc*/', '/*\n*/', '/*\r\n * x\r\n */']
@@ -664,19 +664,60 @@ class Layout(object):
         self.comments = comments
 
 
-def render(draw, toks, layout, drop=None):
-    """Render a token list.  `drop`: set of token indexes (flag 'term') to omit; the
-    caller is responsible for making the omission legal (C04).  Returns text and the
-    list of (token index, offset) actually written."""
+ASI_SEPS = ['\n', '\r', '\r\n', u'\u2028', u'\u2029', ' \n  ', '//c\n', ' // c\r\n', '/*c*/\n', '\n/*c*/', '\n /*c*/ ',
+            '/*a\nb*/', '/*a\r\nb*/ ', '\n//c\n', '/**/\n/**/', u'/*\u2028*/', '\n\n']
+
+
+def sep_class(sep):
+    """coarse class of a separator, for evidence histograms"""
+    has_lt = any(c in sep for c in u'\n\r\u2028\u2029')
+    if '/*' in sep or '//' in sep:
+        if not has_lt:
+            return 'comment'
+        stripped = sep
+        if sep.lstrip(' \t').startswith(('/*', '//')):
+            return 'comment_then_or_containing_lt'
+        return 'lt_then_comment'
+    if has_lt:
+        for name, c in (('crlf', '\r\n'), ('lf', '\n'), ('cr', '\r'), ('ls', u'\u2028'), ('ps', u'\u2029')):
+            if c in sep:
+                return name
+    return 'none' if sep == '' else 'space'
+
+
+def render(draw, toks, layout, drop=None, seps_out=None):
+    """Render a token list.  `drop`: set of token indexes (flag 'term') to omit; after an
+    omitted terminator the separator is drawn from ASI_SEPS (contains a line terminator)
+    unless the next token is `}` or the end of input (C04).  Returns text and the list of
+    (token index, offset) actually written."""
     out = []
     offsets = []
     pos = 0
     prev = None
     level = layout.level
     lts = LT_ALL if layout.lsps else LT_NO_LSPS
+    dropped_before = False
     for i, tk in enumerate(toks):
         if drop and i in drop:
+            dropped_before = True
             continue
+        if prev is not None and dropped_before and not (tk.text == '}' and tk.kind == 'p'):
+            sep = ASI_SEPS[draw(st.integers(0, len(ASI_SEPS) - 1))]
+            if not layout.lsps and (u'\u2028' in sep or u'\u2029' in sep):
+                sep = '\n'
+            if sep[:1] == '/' and prev.text.endswith('/'):
+                sep = ' ' + sep
+            if seps_out is not None:
+                seps_out.append((prev, sep, tk))
+            out.append(sep)
+            pos += len(sep)
+            out.append(tk.text)
+            offsets.append((i, pos))
+            pos += len(tk.text)
+            prev = tk
+            dropped_before = False
+            continue
+        dropped_before = False
         if prev is not None:
             nolt = 'nolt' in tk.flags
             joinable = can_join(prev, tk)
